@@ -1,7 +1,6 @@
 use std::iter::once;
 
 use crate::bound::{Bounds, WhereClauseBuilder};
-use crate::syn_utils::expand_self;
 use proc_macro2::{Span, TokenStream, TokenTree};
 use quote::{quote, quote_spanned, ToTokens};
 use structmeta::{Flag, ToTokens};
@@ -141,26 +140,19 @@ fn build_compare_op(
             (body, quote!())
         }
         CompareOp::Eq => {
-            // `Self` cannot be used in a free function: spell out the type in bounds and where-clause.
-            let generics_f = expand_self(source.generics(), &this_ty);
-            let (impl_g_f, _, _) = generics_f.split_for_impl();
-            let wheres_f = if wheres.is_empty() {
-                quote!()
-            } else {
-                let g = Generics {
-                    where_clause: Some(parse2(wheres.clone())?),
-                    ..Generics::default()
-                };
-                expand_self(&g, &this_ty).where_clause.to_token_stream()
-            };
+            // The assertions live in an associated function, so that `Self` (in bounds, in the where-clause and in
+            // `key = ...` expressions) means the same as in the other derived impls.
             (
                 quote!(),
                 quote! {
                     const _: () = {
                         #[allow(clippy::double_parens)]
                         #[allow(unused_parens)]
-                        fn __f #impl_g_f (__this: &#this_ty) #wheres_f {
-                            #body
+                        #[allow(dead_code)]
+                        impl #impl_g #this_ty #wheres {
+                            fn __f(__this: &Self) {
+                                #body
+                            }
                         }
                     };
                 },
